@@ -226,6 +226,28 @@ def run(ck, F):
                 ck.check(R_tgt, f'{sid}#{pi}', False, f'{fid} (when {when or "always"}): returns `{contracts.render(v, st, {})[:100]}`, neither a '
                          'node of its own nor the answer of a sibling factory', loc=f['loc'], fn=fid)
 
+    # a node that is found in a table instead of being built reports the type of *this* request only if the table finds equal
+    # exactly the requests with the same type (and the same other operands)
+    import keyrule
+    K = keyrule.KeyChecker(ck, F, 'C09')
+    for r in (K.R_diag, K.R_lex, K.R_atom):
+        ck.rules[r]['desc'] = ('(an expression node returned from a table instead of being built -- literals, symbols, `this` -- reports the '
+                               'type it was asked with only if the table finds equal what is equal) ' + ck.rules[r]['desc'])
+    nk = 0
+    for fid in sorted(cur):
+        f = F.fn[fid]
+        if any((p.get('origin') or '').startswith('unified') for p in cur[fid]) and f.get('parent') in contracts.FACTORY_CLASSES \
+                and f.get('parent', '').endswith('expr_factory') and any(p['t'].replace(' ', '') == 'constipr::Type&' for p in f['params']):
+            K.factory(f)
+            nk += 1
+    if nk < 2:
+        raise AnalysisBroken(f'only {nk} unifying expression factories with a type parameter found')
+    K.finish_cover()
+    K.finish_partial(())
+    for r in (K.R_diag, K.R_lex, K.R_cover, K.R_guard):
+        ck.rules[r]['floor'] = 2
+    ck.rules[K.R_atom]['floor'] = 1
+
     # a declaration entered into a populated scope reports the type it was declared with (whatever bookkeeping path it took)
     import c02 as _c02
     _c02.redeclaration_operands(ck, F, 'C09', only={'type'})
